@@ -3,7 +3,7 @@ from props import rc, TRUST
 PROP = dict(
     rule='rapidcheck over SCHEDULES: case = {launch THREAD|TASK, controller program of <= 8 ops over start / stop / await-k-bodies / pause followed '
          'by destruction (redundant start/start and stop/stop included), <= 3 pause rules "the thread arriving for the j-th time at scheduling point '
-         'P is held until the other thread has reached point Q i times, or 12 ms", body duration 0..200us}. 25 named points plus 3 harness-side "call returned" events (guarded hooks in '
+         'P is held until the other thread has reached point Q i times, or 12 ms", body duration 0..200us}. 25 named points in AsyncLoop.h plus 4 harness-side events (call returned x3, inside the body) (guarded hooks in '
          'AsyncLoop.h). Plus an enumeration of all single rules (point pair x arrival numbers) over 6 fixed controller programs (sampled 1/16 in '
          'the quick tier, complete in the thorough tier). Plus a plain stress property without hooks (2000..30000 tight start/stop rounds, also in an optimised unsanitised build) for interleavings the points cannot produce. Oracle: (S) at the instant stop() returns the body is not executing and the entry count '
          'does not change until start() is next called (compared once the loop thread has gone to sleep); (L) after start() returns the entry count '
